@@ -3,12 +3,22 @@
 // Engine<Dom>::run_case.
 //
 // Monitors (key prefixes):
-//   C09.<inst>.<op>.<what>[:class]   what in lost_points / extra_points / union_changed / size_increased /
-//                                    not_exact / wrong_boolean / wrong_dimension / flag_stale / not_OK / wrong_iterator
+//   C09.<inst>.<op>.<what>[:class]   what in lost_points / extra_points / union_changed / size_increased / not_exact /
+//                                    wrong_boolean / wrong_value / wrong_dimension / wrong_iterator / flag_stale /
+//                                    not_reduced / not_OK / base_crash / unexpected_exception
+//                                    class: alias | base-level-* (the base-level operator, not the powerset layer,
+//                                    misbehaves on one disjunct; decided by re-running it on copies of the disjuncts) | ...
 //   C09.hang.<inst>.<op>             logical-time budget exceeded
 //   C13.pset.alias.<op>:<inst>       ps.op(ps) differs from ps.op(copy)
-//   C13.pset.<what>.<op>:<inst>      copies / bystanders / const arguments changed by a later operation (copy-on-write)
-//   C15.pset.<what>[.<op>]:<inst>    ascii round trip and lock-step continuation of the loaded twin
+//   C13.pset.<what>.<op>:<inst>      copy_changed (snapshot), bystander_changed, const_argument_changed,
+//                                    original_changed_by_mutating_copy, changed_by_observer, copy_differs, assign_differs, swap_differs
+//   C15.pset.<what>[.<op>]:<inst>-{powerset,base}-level   ascii round trip and lock-step continuation of the loaded twin
+// Oracle: disjunct-wise operators are checked differentially against the base-level operator applied to copies of the
+// disjuncts taken before the call (the property's own wording); meet, upper bound, add_disjunct, reductions, collapse,
+// difference, geometric comparisons and context simplification are checked against the set-theoretic definition on the
+// shadows.  Profiles (operation mix only): default | cow | alias | ascii | geom.   --kv inst=cpoly|nncpoly|grid|bds|oct|box|all
+// distinct_nontrivial token: inst | operation | state word (reduced flag R/u, size class 0-3, shares a representation S/-,
+// has an empty disjunct E/-) | argument class; counted only when the receiver has at least two non-empty disjuncts.
 #ifndef PSETSEQ_HH
 #define PSETSEQ_HH
 #include "psetseq_dom.hh"
@@ -249,8 +259,10 @@ struct Engine {
     try { std::vector<D> w = ev; for (size_t i = 0; i < w.size(); ++i) op.d(w[i]); E = shadow_of(w); return true; }
     catch (const std::invalid_argument&) { hx::count("skipped.invalid_argument." + op.name); return false; }
   }
-  static bool expected_pairwise(const BOp& op, const std::vector<D>& ea, const std::vector<D>& eb, Un& E) {
-    try { E.clear(); for (size_t i = 0; i < ea.size(); ++i) for (size_t j = 0; j < eb.size(); ++j) { D z(ea[i]); op.d(z, eb[j]); E.push_back(M::shadow(z, (int) z.space_dimension())); } return true; }
+  // cls: triage class "base-level-maps-empty-to-nonempty" when the base-level operator gives a non-empty result for an empty operand
+  static bool expected_pairwise(const BOp& op, const std::vector<D>& ea, const std::vector<D>& eb, Un& E, std::string* cls = 0) {
+    try { E.clear(); for (size_t i = 0; i < ea.size(); ++i) for (size_t j = 0; j < eb.size(); ++j) { D z(ea[i]); op.d(z, eb[j]); E.push_back(M::shadow(z, (int) z.space_dimension()));
+        if (cls && !M::empty((int) z.space_dimension(), E.back()) && (D(ea[i]).is_empty() || D(eb[j]).is_empty())) *cls = "base-level-maps-empty-to-nonempty"; } return true; }
     catch (const std::invalid_argument&) { hx::count("skipped.invalid_argument." + op.name); return false; }
   }
 
